@@ -361,10 +361,14 @@ class R:
         return float(self._concrete())
 
     def __int__(self):
+        if self.special is None and not self.t.is_const() and (CTX.exploring or CTX.concrete_env is not None):
+            return concretise_int(sym_trunc(self))
         v = self._concrete()
         return int(v)
 
     def __index__(self):
+        if self.special is None and not self.t.is_const() and (CTX.exploring or CTX.concrete_env is not None):
+            return concretise_int(self)
         v = self._concrete()
         if isinstance(v, Fraction) and v.denominator == 1:
             return int(v)
@@ -499,6 +503,56 @@ def sym_round(x) -> R:
         tie_dn = (d == -half) & (n == 2 * k)
         CTX.definitions.append(inside | tie_up | tie_dn)
     return n
+
+
+def sym_trunc(x) -> R:
+    """int(x): truncation towards zero as an Int-valued term."""
+    x = R.lift(x)
+    if x.is_const():
+        import math
+        return R.lift(math.trunc(x.const_value()))
+    key = ('trunc', x.t.key())
+    n = CTX.defined.get(key)
+    if n is None:
+        n = R(T.fresh('trunc', is_int=True))
+        CTX.defined[key] = n
+        CTX.definitions.append(((x >= 0) & (n <= x) & (x < n + 1)) | ((x < 0) & (n - 1 < x) & (x <= n)))
+    return n
+
+
+def concretise_int(x, limit=12) -> int:
+    """A Python int is needed (range(), repetition counts, int()) for an integer-valued symbolic term: enumerate the
+    values it can take under the current path condition (at most `limit`) and fork over them in ascending order."""
+    x = R.lift(x)
+    if x.special is None and x.t.is_const():
+        return int(x.const_value())
+    if CTX.concrete_env is not None:
+        return int(round(float(T.evaluate(x.t, CTX.concrete_env))))
+    kv = R(T.fresh('conc', is_int=True))
+    vals = []
+    while len(vals) <= limit:
+        r = solve([*CTX.assumptions, *CTX.pc, kv == x, *[kv != v for v in vals]], timeout_ms=max(CTX.fork_timeout_ms, 5000))
+        if r.status == 'unsat':
+            break
+        if r.status != 'sat':
+            raise Unsupported(f'integer concretisation: solver {r.status}')
+        v = None
+        for k_, val in (r.model or {}).items():
+            if k_ == _var_name(kv):
+                v = int(val)
+        if v is None:
+            raise Unsupported('integer concretisation: no model value')
+        vals.append(v)
+    if not vals or len(vals) > limit:
+        raise Unsupported(f'integer concretisation: {"no" if not vals else "more than " + str(limit)} feasible values')
+    for v in sorted(vals):
+        if bool(x == v):
+            return v
+    raise _Abort('path infeasible')
+
+
+def _var_name(r: 'R') -> str:
+    return repr(r.t)
 
 
 # =========================================================================== lowering
@@ -822,6 +876,7 @@ class Ctx:
         self.known_nonneg: set = set()
         self.fork_timeout_ms = 3000
         self.oracle_mode = False
+        self.concrete_env = None
         self.reset_path([])
         self.exploring = False
 
@@ -869,6 +924,9 @@ class Ctx:
 
     # -- forking
     def decide(self, b: B) -> bool:
+        if self.concrete_env is not None:
+            # validation mode: every atom has a value, conditions are decided numerically (mpmath, 50 digits)
+            return eval_bool(b, self.concrete_env)
         if not self.exploring:
             raise Unsupported(f'symbolic condition outside explore(): {b!r}')
         if self.pos < len(self.decisions):
@@ -894,6 +952,24 @@ class Ctx:
         self.pos += 1
         self.pc.append(b if v else ~b)
         return v
+
+
+def eval_bool(b: B, env: dict) -> bool:
+    """Numeric truth value of a symbolic Boolean under a complete assignment of its atoms."""
+    if b.kind == 'const':
+        return bool(b.a)
+    if b.kind == 'not':
+        return not eval_bool(b.a, env)
+    if b.kind == 'and':
+        return all(eval_bool(x, env) for x in b.a)
+    if b.kind == 'or':
+        return any(eval_bool(x, env) for x in b.a)
+    if b.kind == 'cmp':
+        from . import terms as _T
+
+        v = _T.evaluate(b.a, env)
+        return {'<': v < 0, '<=': v <= 0, '>': v > 0, '>=': v >= 0, '==': v == 0, '!=': v != 0}[b.op]
+    raise Unsupported('z3 condition in concrete mode')
 
 
 CTX = Ctx()
